@@ -72,11 +72,11 @@ def template(kind, t):
 
 
 def big_frame(kind, n):
-    """n rows on a 6-wide grid inside [0, 7] x [0, 5]; rows 4 and 17 missing, row 9 empty"""
+    """n <= 63 rows on an 8-wide grid inside [0, 8] x [0, 8]; rows 4 and 17 missing, row 9 empty"""
     els, els2 = [], []
     k2 = 'line' if kind == 'point' else 'point'
     for i in range(n):
-        x, y = i % 6, (i // 6) % 5
+        x, y = i % 8, (i // 8) % 8
         if i in (4, 17):
             els.append(None)
         elif i == 9:
@@ -194,8 +194,10 @@ def gen_specs(rep, tier):
         keys = [KEYS[0], KEYS[1], KEYS[7]] + ([] if quick else [KEYS[2], KEYS[6]])
         spec(kind, els, k2, els2, 'g', [['from_delayed', cuts], ['parquet', None, None]], keys)
         if kind == 'point' or not quick:
+            m = min(60, 3 * nparts)               # enough distinct keys for nparts real parts
+            els, k2, els2 = big_frame(kind, m)
             spec(kind, els, k2, els2, 'g',
-                 [['from_delayed', [0, n // 2, n]], ['pack_to_parquet', nparts]], keys)
+                 [['from_delayed', [0, m // 2, m]], ['pack_to_parquet', nparts]], keys)
     # C. random frames, random splits, random provenance
     for _ in range(40 if quick else 800):
         kind = rng.choice(G.KINDS)
@@ -342,6 +344,8 @@ def check_frame(ctx, X, spec, expect, ordered, index_kept):
     nparts = len(parts)
     rep.evaluations += 1
     rep.count('prov:' + last)
+    if nparts >= 11:
+        rep.count(f'partitions>=11:{last}')
     rep.count('kind:' + spec['kind_g'] if spec['active'] == 'g' else 'kind:' + spec['kind_h'])
 
     # ---- contracts of the plumbing
